@@ -758,11 +758,11 @@ class C14(core.Check):
 
     def cases(self, rng, tier):
         if tier == "quick":
-            yield from self.exhaustive(3, rng, 0.004)
-            for _ in range(2500):
+            yield from self.exhaustive(3, rng, 0.05)
+            for _ in range(8000):
                 yield self.random_case(rng, rng.choice([3, 6, 10, 16]))
         else:
-            yield from self.exhaustive(4, rng, 0.02)
+            yield from self.exhaustive(4, rng, 0.05)
             for _ in range(40000):
                 yield self.random_case(rng, rng.choice([3, 6, 10, 16, 30]))
 
